@@ -881,7 +881,7 @@ def hardening(rng, budget):
         c = sequence(tuple(rng.randrange(len(alphabet())) for _ in range(L)), rot=rng.randrange(6))
         c["direct"] = True
         for r in c["reqs"]:
-            r["wait"] = rng.choice([0, 1, 1024, 4096])
+            r["wait"] = rng.choice([0, 1, 1024, 4096, -1])    # -1: no timeout (cancelled at exit)
             r["b"]["lat"] = rng.choice([0, 1024, 2048])
         out.append(tagged("direct-transport", c))
     # 7: leaving the context while a POST is in flight
@@ -895,4 +895,21 @@ def hardening(rng, budget):
             d["direct"] = True
             d["reqs"][-1]["wait"] = 10 * lat
             out.append(tagged("leave-in-flight", d))
+    # close with requests outstanding: every cut point of a serial timeline (k answered, one in flight, rest queued)
+    for k in range(20 if quick else 400):
+        L = rng.randint(1, 4)
+        c = sequence(tuple(rng.randrange(len(alphabet())) for _ in range(L)), rot=rng.randrange(6), session0=rng.choice([None, "sess-0"]))
+        t = 0
+        cuts = [1]
+        for r in c["reqs"]:
+            r["b"]["lat"] = rng.choice([512, 1024, 2048])
+            t += r["b"]["lat"]
+            cuts.append(t + 1)
+            cuts.append(t - 1)
+        c["leave_at"] = rng.choice(cuts)
+        if rng.random() < 0.3:
+            c["direct"] = True
+            for r in c["reqs"]:
+                r["wait"] = rng.choice([0, 100000])
+        out.append(tagged("close-outstanding", c))
     return out
